@@ -211,7 +211,12 @@ func newMachine(t *rapid.T, k *evid.Case, f Focus) *M {
 // buildBase submits a long straight chain (real-depth regime): lengths around the prune depth,
 // the 1000-header file boundaries and the automatic clean at heights 10000 / 20000.
 func (m *M) buildBase(t *rapid.T, inst *Inst) {
-	n := rapid.SampledFrom([]int{9990, 9998, 10003, 10040, 19995, 20050, 10990, 11005}).Draw(t, "baseLength")
+	lengths := []int{9990, 9998, 10003, 10040, 19995, 20050, 10990, 11005}
+	if m.f.Stream {
+		// the stream leg wants the automatic clean (height 10000 / 20000) inside the generated part
+		lengths = []int{9990, 9998, 9994, 19995, 19990, 10003, 10990}
+	}
+	n := rapid.SampledFrom(lengths).Draw(t, "baseLength")
 	// stale forks: short side branches created early (within MaxBranchDepth of the tip at that
 	// moment, in a drawn order) that the base chain then outgrows by more than the prune depth
 	type stale struct{ fork, length int }
